@@ -90,6 +90,7 @@ def _run(fn, me, bindings):
     env = {params_of(fn)[0]: me, "str": ("type", "str")}
     env.update(bindings)
     it = _Interp(env, on_call=on_call)
+    it.home = (fn._module.repo, fn._module, "Function")
     it.run(fn.body)
     return made
 
@@ -287,8 +288,11 @@ def r_reader(ctx):
                 if isinstance(b, SymObj) and b.kind == "DataFrame":
                     return [list(r) for r in b.attrs["data"]] if e.attr == "values" else _shape(b.attrs["data"])
             return super().ev(e)
-    env = {params_of(fn)[0]: me, "Constraint": ("type", "Constraint"), "float": ("type", "float"), "int": ("type", "int"), "Expression": ("type", "Expression")}
+    base_env = {"Constraint": ("type", "Constraint"), "float": ("type", "float"), "int": ("type", "int"), "Expression": ("type", "Expression")}
+    env = dict(base_env)
+    env[params_of(fn)[0]] = me
     it = _I(env, on_call=on_call)
+    it.home = (repo, fn._module, "Function")
     try:
         ret = it.run(fn.body)
     except AnalysisError as ex:
